@@ -1,3 +1,4 @@
 SPECIFICATION TraceSpec
+CONSTANTS NewLoads = 1
 POSTCONDITION Done
 CHECK_DEADLOCK FALSE
